@@ -27,7 +27,7 @@ type c16 struct{}
 func (c16) ID() string    { return "C16" }
 func (c16) Level() string { return "model_checking" }
 func (c16) Rule() string {
-	return "cases = (a) every ordered pair (thorough: also triples) of data-independent tasks from a menu chosen to collide on anything global - Solve with the learned-clause trace observed through the certificate channel on conflict-producing formulas, CountModels, Optimal, maxsat.Solve, explain.MUS, explain.UnsatSubset, bf.Solve on a CNF-shaped and on a non-CNF formula with an exactly-one group (auxiliary variables) - run as concurrent threads; (b) single calls that start goroutines internally (UnsatSubset, Solver.Optimal and Enumerate with a consumer, WCNF Optimal with its forwarder). ALL schedules with at most 2 preemptions (3 thorough) are enumerated under the cooperative scheduler (for the task pairs, whose threads block on every certificate line, additionally at most 5 (7) non-default choices in total, free switches at blocking points included); scheduling points: thread start/exit, goroutine creation, every channel operation, every access to a package-level variable that is written anywhere in its package or to a local captured by a go-function (found by the rewriter from /repo's working tree) and every statement of the functions that touch one. Oracle on every schedule: each thread's semantic observation (verdict, validity of its model, count, optimum, validity/minimality of its MUS) equals its observation when run alone (the exact model, learned-clause trace and statistics are compared too, for information only); no happens-before race on the instrumented variables; no deadlock, send on closed, double close or panic. (c) the same bodies run free under the Go race detector (cmd/mcrace; sampling, reported separately in the evidence). Non-trivial = the case has at least 2 schedules."
+	return "cases = (a) every ordered pair (thorough: also triples) of data-independent tasks from a menu chosen to collide on anything global - Solve with the learned-clause trace observed through the certificate channel on conflict-producing formulas, CountModels, Optimal, maxsat.Solve, explain.MUS, explain.UnsatSubset, bf.Solve on a CNF-shaped and on a non-CNF formula with an exactly-one group (auxiliary variables) - run as concurrent threads; (b) single calls that start goroutines internally (UnsatSubset, Solver.Optimal and Enumerate with a consumer, WCNF Optimal with its forwarder). ALL schedules with at most 2 preemptions (3 thorough) are enumerated under the cooperative scheduler (for the task pairs, whose threads block on every certificate line, additionally at most 5 (6) non-default choices in total, free switches at blocking points included); scheduling points: thread start/exit, goroutine creation, every channel operation, every access to a package-level variable that is written anywhere in its package or to a local captured by a go-function (found by the rewriter from /repo's working tree) and every statement of the functions that touch one. Oracle on every schedule: each thread's semantic observation (verdict, validity of its model, count, optimum, validity/minimality of its MUS) equals its observation when run alone (the exact model, learned-clause trace and statistics are compared too, for information only); no happens-before race on the instrumented variables; no deadlock, send on closed, double close or panic. (c) the same bodies run free under the Go race detector (cmd/mcrace; sampling, reported separately in the evidence). Non-trivial = the case has at least 2 schedules."
 }
 func (c16) Assumptions() []string {
 	return []string{"the exhaustive part sees races on instrumented variables only (package-level variables and go-captured locals); races on other memory are left to the differential oracle and to the free-running race-detector pass, which samples schedules", "Verbose output is off (the statement excludes it)"}
@@ -71,9 +71,9 @@ func (c16) Enumerate(tier string, seed int64, yield func(string, core.Case) bool
 		}
 	}
 	if tier == "thorough" {
-		for i := 0; i < 4; i++ {
+		for i := 0; i < 2; i++ {
 			for j := range menu {
-				for k := j; k < len(menu); k++ {
+				for k := j; k < len(menu); k += 2 {
 					if !yield("triples", C16Case{Tasks: []conc.Task{menu[i], menu[j], menu[k]}}) {
 						return
 					}
@@ -147,7 +147,7 @@ func (c16) Exec(cc core.Case, r *core.Rec) []core.Failure {
 	var got, gotRaw []string
 	DevBound = 5 // threads that block on every certificate line: bound free switches as well
 	if r.Tier == "thorough" {
-		DevBound = 7
+		DevBound = 6
 	}
 	defer func() { DevBound = 0 }()
 	stats := Explore(bound, 2000000, r, r.ReplayChoices, func() { got, gotRaw = conc.RunTogether(c.Tasks) }, func(e Exec) bool {
